@@ -40,7 +40,9 @@ class ContinueSig(Exception):
     pass
 
 
-SOLVER_TIMEOUT_MS = 10000
+SOLVER_TIMEOUT_MS = 3000
+FINAL_TIMEOUT_MS = 20000
+FORK_TRACE = None
 
 
 def expr_charvars(e, acc, seen):
@@ -88,6 +90,7 @@ class Ctx:
         self.notes = []
         self.input = None           # whatever the driver wants to remember (input objects)
         self.sat_checked = False
+        self.where = None
         self.uclauses = []          # disjunctions of unary literals, kept out of the solver until needed
         self.upushed = 0
 
@@ -195,6 +198,21 @@ class Ctx:
                     self.s.add(U(v, s).z3())
                 self.synced[k] = s
 
+    def check_final(self, *extra):
+        """a verdict-relevant check: incremental first, then one-shot in a fresh solver (stronger preprocessing)"""
+        r = self.check(*extra)
+        if r != z3.unknown:
+            return r, None
+        s2 = z3.Solver()
+        s2.set('timeout', FINAL_TIMEOUT_MS)
+        s2.add(self.s.assertions())
+        for c in extra:
+            s2.add(toz3(c))
+        r = s2.check()
+        if r == z3.sat:
+            return r, s2.model()
+        return r, None
+
     def check(self, *extra):
         self.checks += 1
         extra = [toz3(c) for c in extra]
@@ -227,7 +245,7 @@ class Ctx:
                 return True
             if not any(u.v.get_id() in self.relvars for u in items):
                 return False
-        return self.check(z3.Not(toz3(c))) == z3.unsat
+        return self.check_final(z3.Not(toz3(c)))[0] == z3.unsat
 
     def restrict(self, u):
         k = u.v.get_id()
@@ -263,6 +281,9 @@ class Ctx:
             if ft and ff:
                 d = True
                 self.new.append(self.decisions[:self.pos] + [False])
+                if FORK_TRACE is not None:
+                    k = self.where() if self.where else '?'
+                    FORK_TRACE[k] = FORK_TRACE.get(k, 0) + 1
             elif ft:
                 d = True
             elif ff:
@@ -280,14 +301,15 @@ class Ctx:
             return not self.branch(c.neg())
         if isinstance(c, (U, UAnd)):
             items = c.items if isinstance(c, UAnd) else [c]
-            if not any(u.v.get_id() in self.relvars for u in items):
+            ft = all(not self.dom_of(u.v).disjoint(u.s) for u in items)
+            ff = any(not self.dom_of(u.v).subset(u.s) for u in items)
+            rel = any(u.v.get_id() in self.relvars for u in items)
+            if not rel or not (ft and ff):
                 self.fast += 1
                 if self.pos < len(self.decisions):
                     d = self.decisions[self.pos]
                     self.pos += 1
                 else:
-                    ft = all(not self.dom_of(u.v).disjoint(u.s) for u in items)
-                    ff = any(not self.dom_of(u.v).subset(u.s) for u in items)
                     d = self._take(ft, ff)
                 if d:
                     for u in items:
@@ -333,10 +355,10 @@ class Ctx:
 
     # -- models
     def model(self):
-        r = self.check()
+        r, m = self.check_final()
         if r != z3.sat:
             return None
-        return self.s.model()
+        return m if m is not None else self.s.model()
 
     def eval_char(self, m, c):
         if isinstance(c, int):
